@@ -33,6 +33,8 @@ ALSO = {
     "C19-period-cache-ignores-form": ["C13"], "C17-string-scratch-stale-units": ["C13"], "C15-respauth-append-into-caller-slice": ["C12"], "C04-frame-buffer-pool-not-reset-on-error": ["C13"],
     "C07-smpp-fallback-keeps-requested-limits": ["C06", "C14"], "C20-small-read-scratch": ["C12"], "C01-dispatcher-shared-enquirelink": ["C10", "C13", "C12"], "C18-writer-exact-hint-no-copy": ["C12", "C01"],
     "C10-writer-bytes-returns-pooled-buffer": ["C12", "C01", "C13"], "C12-stringer-truncates-in-place": ["C13"],
+    "C08-decode-pooled-builder": ["C12", "C05", "C13"], "C05-unpacked-decoder-partial-progress": ["C08"], "C16-parseoptions-values-share-array": ["C12"], "C06-ucs2-handwritten-surrogates": ["C05", "C14"],
+    "C02-fixedlen-padding-partly-cleared": ["C01", "C20"], "C11-writer-pool-keeps-error": ["C01", "C20", "C13"], "C03-packed-decoder-escape-check-hoisted": ["C08"], "C13-status-text-cache": [],
     "C12-reader-scratch-view": ["C13"], "C13-shared-sorter": ["C09"], "C07-total-from-size": ["C06"], "C03-cmpp20-dest-block-u8": ["C01"],
 }
 
